@@ -140,7 +140,7 @@ def gen_vorticity_stretching_timestep_ssprk3_pyst_kernel_3d(
             vorticity_stretching_flux_field=vorticity_stretching_flux_field,
             vorticity_field=post_step_2_vorticity_field,
             velocity_field=velocity_field,
-            prefactor=(dt_by_2_dx * 0.5),
+            prefactor=dt_by_2_dx,
         )
         elementwise_sum_pyst_kernel_3d(
             sum_field=post_step_2_vorticity_field,
